@@ -55,7 +55,8 @@ def gen(rng):
               ".gen/src": ".gen/src", "./.hidden": ".hidden", "..": "", "src/../code": "code"}[srcform]
     if srcform == "abs":
         tags.add("abs_source_dir")
-    exts = rng.choice([None, None, ["rs"], ["rs", "rsx"], ["RS"], ["txt", "rs"], ["zzz"], ["rs", "bak"]])
+    exts = rng.choice([None, None, ["rs"], ["rs", "rsx"], ["RS"], ["txt", "rs"], ["zzz"], ["rs", "bak"], ["rs", "RS"], ["RS", "rs"],
+                       ["rs", "RS", "inc"], ["Rs", "rs", "rS"], ["rs", "rs"], ["b", "a", "rs", "Z"], ["rsx", "Rs", "bak", "rs", "txt"]])
     if exts and len(exts) > 1:
         tags.add("multi_ext")
     extra = {}
